@@ -103,8 +103,12 @@ func closePipe(n *Named, name string) {
 	verifhook.Yield("pipes.closePipe.beforeLock")
 	n.mutex.Lock()
 
-	n.pipes[name].Pipe.Close()
-	delete(n.pipes, name)
+	// the pipe may already be gone: closed twice, or deleted during the grace
+	// period (this goroutine has no recover, a nil dereference kills the shell)
+	if n.pipes[name].Pipe != nil {
+		n.pipes[name].Pipe.Close()
+		delete(n.pipes, name)
+	}
 
 	n.mutex.Unlock()
 	verifhook.Event("pipe.expire", name)
